@@ -326,6 +326,9 @@ func runWorker(p *Prop, tier string, seed int64, spec, out string) {
 		total = int(n)
 	}
 	from := int(envInt("VERIF_FROM", 0))
+	if lo := int(envInt("VERIF_SKIP_BELOW", 0)); lo > from {
+		from = lo // development aid: run only the tail of the case list (a block appended last)
+	}
 	only := int(envInt("VERIF_ONLY", -1))
 	for idx := shard; idx < total; idx += n {
 		if idx < from || (only >= 0 && idx != only) {
